@@ -190,7 +190,20 @@ func c15r3(c *Ctx) {
 				continue
 			}
 			if loop.Value != nil && f.ObjOf(loop.Value) == elem && sameLvalue(f, loop.X, deposits) {
-				okFold = true
+				// … and every iteration adds its amount: an element that is skipped (de-duplicated, filtered) is
+				// still in the list handed to the sink, and is credited without having been paid for
+				head := g.NodeOf(loop)
+				var body *cfgx.Edge
+				for _, e := range head.Succs {
+					if e.Kind == cfgx.Br0 {
+						body = e
+					}
+				}
+				okFold = !reachAvoidingNode(g, body, head, addNode)
+				if !okFold {
+					ob.Bad(nil, "the loop at %s sums the amounts of the list handed to %s but can skip an element (a filtered or repeated entry is still credited by the sink): the accounts receive more than the contract pays", c.P.Pos(loop.Pos()), sink.Fn.Name())
+					continue
+				}
 			}
 			// case B: elem is appended to the slice handed to the sink in the same iteration, unconditionally
 			if !okFold {
